@@ -16,7 +16,17 @@ def main():
     thunks = [lambda job=job, o=o: run_job(shared, job, o) for job, o in zip(jobs, objs)]
     s = Scheduler(thunks, [tuple(p) for p in case["points"]], opcodes=bool(case.get("opcodes")), watch=shared, on_write=case.get("on_write") or (), on_touch=case.get("on_touch") or ())
     results, errors = s.run()
-    json.dump({"results": results, "errors": [repr(e) if e is not None else None for e in errors], "switches": s.switches, "trace": s.trace, "touches": s.touches}, sys.stdout)
+    # afterwards: fixed probe calls through the same model (every total player count 2..16, every team count 2..8).  Whatever the interleaved
+    # first calls of the process left in lazily built process-wide tables shows here even if none of the jobs looks at the damaged entry.
+    from vf.props.c14 import probe_jobs
+
+    probes = []
+    for job in probe_jobs(cfg):
+        try:
+            probes.append(run_job(shared, job))
+        except Exception as e:  # noqa: BLE001
+            probes.append({"raised": repr(e)})
+    json.dump({"probes": probes, "results": results, "errors": [repr(e) if e is not None else None for e in errors], "switches": s.switches, "trace": s.trace, "touches": s.touches}, sys.stdout)
 
 
 if __name__ == "__main__":
